@@ -812,6 +812,8 @@ fn batch_runs(ctx: &mut Ctx, prop: &str, per_degree: usize, shapes: bool) {
                         }
                     }
                 }
+                // quick tier: all ordered pairs on the first batch of every key size, a sample on the others
+                let pairs: Vec<(usize, usize)> = if ctx.thorough || v == 0 { pairs } else { pairs.into_iter().step_by(5).collect() };
                 for (a, bb) in pairs {
                     let id = format!("{}/pair@{},{}", id0, a, bb);
                     let d = rand_nonzero(&mut rng);
